@@ -557,3 +557,11 @@ Proof.
   revert prev. induction l as [|x l IH]; intros prev; cbn [app map c18_walk]; [reflexivity|].
   intro H. apply andb_prop in H. destruct H as [H1 H2]. rewrite H1. cbn [andb]. apply IH. exact H2.
 Qed.
+
+Lemma lastok_F2_eq l l' : Forall2 seg_eq l l' -> (lastok l <-> lastok l').
+Proof.
+  intros F. destruct (list_last_cases l) as [->|(i & x & ->)].
+  - inversion F; subst. tauto.
+  - apply F2_app_last_inv in F. destruct F as (i' & x' & -> & _ & ((_ & _ & P) & D)).
+    rewrite !lastok_app_last. unfold upr. rewrite P, D. tauto.
+Qed.
